@@ -10,6 +10,7 @@ e  seeds are lifted with lift_plane_point on the problem's energy and section
 b (added)  iterates fed back as seeds lie exactly on the section
 c (added)  the map service generates the requested section whatever the generator was configured for before (model generator)
 d (added)  the direction quantity does not vanish on the section at quadratic order
+c-config (round 4)  config -> problem -> request chain and the seeding closures; compute() returns the payload of its own key
 """
 from __future__ import annotations
 
@@ -247,18 +248,24 @@ def _c_service_section(chk):
 
             def generate(self, dom, options):
                 log.append(self.section)
-                return SymObj(None, {"points": sp.Symbol("PTS"), "states": sp.Symbol("STS"), "times": sp.Symbol("TMS"), "labels": sp.Symbol("LBL")}, "result")
+                return SymObj(None, {"points": sp.Symbol("PTS_" + self.section), "states": sp.Symbol("STS_" + self.section), "times": sp.Symbol("TMS"),
+                                     "labels": sp.Symbol("LBL")}, "result")
 
         gen = Gen()
-        svc = SymObj(ClassRef(mod, cls), {"generator": gen, "map_config": SymObj(None, {"section_coord": default}, "map_config"), "domain_obj": sp.Symbol("DOM"),
+        svc = SymObj(ClassRef(mod, cls), {"generator": gen, "map_config": SymObj(None, {"section_coord": default}, "map_config"),
+                                          "domain_obj": SymObj(None, {"_last_map": SymObj(None, {"args": [sp.Symbol("PTS_stale"), sp.Symbol("STS_stale")]}, "last map of another call")}, "DOM"),
                                           "map_options": SymObj(None, {"to_dict": lambda: {}}, "options"), "make_key": lambda *a: ("key",) + tuple(str(x) for x in a),
                                           "get_or_create": lambda key, factory: ip.apply(factory, [], {}), "apply_center_manifold_map": lambda payload, **kw: None}, "svc")
         ip = Interp(overrides={"_from_mapping": lambda ip_, a, k: SymObj(None, dict(a[-1]), "payload"),
                                "CenterManifoldMapResults": lambda ip_, a, k: SymObj(None, {"args": a}, "results")})
         try:
-            ip.apply(ip.getattr(svc, "compute"), [], {"section_coord": requested})
+            out = ip.apply(ip.getattr(svc, "compute"), [], {"section_coord": requested})
         except OutsideFragment as exc:
             raise AnalysisError(f"maps service compute outside fragment: {exc}")
+        got = list(out.attrs.get("args", []))[:2] if isinstance(out, SymObj) else None
+        chk.check(got == [sp.Symbol("PTS_" + requested), sp.Symbol("STS_" + requested)], "C14.c", f"{MS}::_CenterManifoldMapDynamicsService.compute[result of {requested} after {gen_state}]",
+                  f"compute('{requested}') returns {got}: not the points / states of the payload obtained for this request (e.g. the object's last computed map, which on a "
+                  f"cache hit belongs to another call)", sample=f"compute({requested}) returns the payload of its own key")
         chk.check(log == [requested], "C14.c", f"{MS}::_CenterManifoldMapDynamicsService.compute[request {requested} after {gen_state}]",
                   f"a map for section {requested} is generated while the generator is configured for {log} (previous section {gen_state}, service default {default})",
                   sample=f"request {requested} with the generator left at {gen_state}: generate() runs configured for {requested}")
